@@ -24,3 +24,22 @@ def build(reg):
         trusted=["pulser HamiltonianData.from_sequence returns basis_data.interaction_type as a string",
                  "SequenceData.dim == len(eigenstates) (the real property is inlined)"],
     )
+
+
+# negative controls (thorough tier): (name, file, old text, new text)
+CONTROLS = [('emu-sv accepts XY',
+  'emu_sv/sv_backend.py',
+  'if sequence_data.hamiltonian_type != HamiltonianType.Rydberg:',
+  'if False:'),
+ ('emu-sv accepts leakage',
+  'emu_sv/sv_backend.py',
+  'if sequence_data.dim != 2:',
+  'if sequence_data.dim > 3:'),
+ ('unknown interaction type falls through to XY',
+  'emu_base/pulser_adapter.py',
+  '        elif int_type == "XY":',
+  '        elif True:'),
+ ('two bases accepted',
+  'emu_base/pulser_adapter.py',
+  'if len(sequence_dict) != 1:',
+  'if len(sequence_dict) < 1:')]
